@@ -6,70 +6,8 @@ use vstd::prelude::*;
 use vstd::std_specs::iter::IteratorSpec;
 verus! {
 
-// ---------------------------------------------------------------- specification vocabulary
-pub open spec fn lr_lo(r: LineRange) -> int { match r { LineRange::Single(l) => l as int, LineRange::Range(s, _) => s as int } }
-pub open spec fn lr_hi(r: LineRange) -> int { match r { LineRange::Single(l) => l as int, LineRange::Range(_, e) => e as int } }
-/// x is a line of r
-pub open spec fn lr_has(r: LineRange, x: int) -> bool { lr_lo(r) <= x <= lr_hi(r) }
-/// r denotes at least one line
-pub open spec fn lr_nonempty(r: LineRange) -> bool { lr_lo(r) <= lr_hi(r) }
-/// canonical element: a Range always spans at least two lines
-pub open spec fn lr_wf(r: LineRange) -> bool { match r { LineRange::Single(_) => true, LineRange::Range(s, e) => s < e } }
-pub open spec fn strictly_inc(s: Seq<u32>) -> bool { forall|i: int, j: int| 0 <= i < j < s.len() ==> s[i] < s[j] }
-/// sorted, pairwise disjoint and non-adjacent, every element canonical
-pub open spec fn ranges_canonical(v: Seq<LineRange>) -> bool {
-    &&& forall|i: int| 0 <= i < v.len() ==> lr_wf(#[trigger] v[i])
-    &&& forall|i: int, j: int| 0 <= i < j < v.len() ==> lr_hi(#[trigger] v[i]) + 1 < lr_lo(#[trigger] v[j])
-}
-/// x is a line of some element of v
-pub open spec fn ranges_have(v: Seq<LineRange>, x: int) -> bool { exists|i: int| 0 <= i < v.len() && lr_has(#[trigger] v[i], x) }
-/// x occurs among the first n entries of s
-pub open spec fn prefix_has(s: Seq<u32>, n: int, x: int) -> bool { exists|i: int| 0 <= i < n && #[trigger] s[i] as int == x }
-pub open spec fn seq_has(s: Seq<u32>, x: int) -> bool { prefix_has(s, s.len() as int, x) }
-pub open spec fn cover_inv(rs: Seq<LineRange>, cs: int, ce: int, lines: Seq<u32>, n: int) -> bool {
-    forall|x: int| (#[trigger] ranges_have(rs, x) || cs <= x <= ce) <==> prefix_has(lines, n, x)
-}
-pub open spec fn all_below(rs: Seq<LineRange>, b: int) -> bool { forall|k: int| 0 <= k < rs.len() ==> lr_hi(#[trigger] rs[k]) + 1 < b }
-pub open spec fn tail_matches(rem: Seq<&u32>, lines: Seq<u32>) -> bool {
-    &&& rem.len() == lines.len() - 1
-    &&& forall|k: int| 0 <= k < lines.len() - 1 ==> *(#[trigger] rem[k]) == lines[k + 1]
-}
-// ---------------------------------------------------------------- lemmas
-proof fn lemma_push_has(v: Seq<LineRange>, r: LineRange, x: int)
-    ensures ranges_have(v.push(r), x) <==> (ranges_have(v, x) || lr_has(r, x))
-{
-    let w = v.push(r);
-    if ranges_have(w, x) {
-        let i = choose|i: int| 0 <= i < w.len() && lr_has(#[trigger] w[i], x);
-        if i < v.len() { assert(w[i] == v[i]); assert(lr_has(v[i], x)); } else { assert(w[i] == r); }
-    }
-    if ranges_have(v, x) {
-        let i = choose|i: int| 0 <= i < v.len() && lr_has(#[trigger] v[i], x);
-        assert(w[i] == v[i]); assert(lr_has(w[i], x));
-    }
-    if lr_has(r, x) { assert(w[v.len() as int] == r); assert(lr_has(w[v.len() as int], x)); }
-}
-proof fn lemma_prefix_step(s: Seq<u32>, n: int, x: int)
-    requires 0 <= n < s.len()
-    ensures prefix_has(s, n + 1, x) <==> (prefix_has(s, n, x) || s[n] as int == x)
-{
-    if prefix_has(s, n + 1, x) {
-        let i = choose|i: int| 0 <= i < n + 1 && #[trigger] s[i] as int == x;
-        if i < n { assert(prefix_has(s, n, x)); }
-    }
-    if prefix_has(s, n, x) {
-        let i = choose|i: int| 0 <= i < n && #[trigger] s[i] as int == x;
-        assert(0 <= i < n + 1 && s[i] as int == x);
-    }
-    if s[n] as int == x { assert(0 <= n < n + 1 && s[n] as int == x); }
-}
-//#item file=src/authorship/authorship_log.rs kind=enum name=LineRange derive=PartialEq,Eq
-#[derive(PartialEq, Eq)]
-pub enum LineRange {
-    Single(u32),
-    Range(u32, u32), // start, end (inclusive)
-}
-//#end
+//#include ../_shared/linerange_type.inc.rs
+//#include ../_shared/linerange_specs.inc.rs
 // D1 drops `Clone` from the derive list (Verus attaches no specification to a derived Clone that is
 // not Copy and refuses a second one).  The structural clone that #[derive(Clone)] generates for an
 // enum of u32 fields is written out here and verified to return an equal value.
@@ -106,7 +44,7 @@ impl LineRange {
         let mut current_start = lines[0];
         let mut current_end = lines[0];
         //@ proof {
-        //@     assert forall|x: int| (ranges_have(ranges@, x) || current_start <= x <= current_end) <==> prefix_has(lines@, 1, x) by {
+        //@     assert forall|x: int| covered(ranges@, current_start as int, current_end as int, x) <==> prefix_has(lines@, 1, x) by {
         //@         if prefix_has(lines@, 1, x) { }
         //@         if current_start <= x <= current_end { assert(lines@[0] as int == x); }
         //@     }
@@ -142,7 +80,7 @@ impl LineRange {
                 current_end = line;
             }
         //@     proof {
-        //@         assert forall|x: int| (ranges_have(ranges@, x) || current_start <= x <= current_end) <==> prefix_has(lines@, n + 1, x) by {
+        //@         assert forall|x: int| covered(ranges@, current_start as int, current_end as int, x) <==> prefix_has(lines@, n + 1, x) by {
         //@             lemma_prefix_step(lines@, n, x);
         //@             if ranges@.len() > old_ranges.len() {
         //@                 lemma_push_has(old_ranges, ranges@[old_ranges.len() as int], x);
